@@ -36,4 +36,37 @@ structure InScope (tok : String → List Tok) (r : Frame) : Prop where
   small : ∀ s, (tok s).length < 2 ^ 32
   rows : r.rows.length < 2 ^ 40
 
+/-- every value of column `attr` is missing or a Python `str` — what the tokenizer needs: a present value of any
+    other type (int, float, bool, bytes, … in an object column) makes `tokenizer.tokenize` raise
+    `TypeError: Input is expected to be a string`, and with it every entry point that tokenizes the column -/
+def StrColumn (f : Frame) (attr : String) : Prop := ∀ srow ∈ f.rows, (valOf f attr srow).strOrMissing = true
+
+instance (f : Frame) (attr : String) : Decidable (StrColumn f attr) := by unfold StrColumn; infer_instance
+
+/-- the output header (prefixed keys, prefixed output attributes, `_sim_score`) has no column named `_id`:
+    otherwise the final `output_table.insert(0, '_id', …)` of every join / `filter_tables` raises
+    `ValueError: cannot insert _id, already exists` (e.g. `l_out_prefix='_'` with key attribute `id`) -/
+def NoIdClash (header : List String) : Prop := "_id" ∉ header
+
+instance (header : List String) : Decidable (NoIdClash header) := by unfold NoIdClash; infer_instance
+
+/-- the header (without `_id`) a join / `filter_tables` call with arguments `a` assembles:
+    `[l_pre+l_key, r_pre+r_key] ++ l_pre+l_out… ++ r_pre+r_out… (++ ["_sim_score"])` -/
+def outHeader (a : TableArgs) (outSimScore : Bool) : List String :=
+  getOutputHeader a.lKey a.rKey (removeRedundantAttrs a.lOut a.lKey) (removeRedundantAttrs a.rOut a.rKey) a.lPre a.rPre
+    ++ (if outSimScore then ["_sim_score"] else [])
+
+/-- what the BODY of a table-level call (a join or `filter_tables` with table arguments `a`, tables `l r`, score column
+    requested or not) needs beyond the documented argument validations in order to return a frame:
+    both join columns hold only strings and missing values (else the tokenizer raises TypeError), and the output
+    header does not already contain `_id` (else the final `insert(0, '_id', …)` raises ValueError) -/
+structure BodyOK (a : TableArgs) (l r : Frame) (outSimScore : Bool) : Prop where
+  lstr : StrColumn l a.lAttr
+  rstr : StrColumn r a.rAttr
+  noClash : NoIdClash (outHeader a outSimScore)
+
+instance (a : TableArgs) (l r : Frame) (oss : Bool) : Decidable (BodyOK a l r oss) :=
+  decidable_of_iff (StrColumn l a.lAttr ∧ StrColumn r a.rAttr ∧ NoIdClash (outHeader a oss))
+    ⟨fun ⟨h1, h2, h3⟩ => ⟨h1, h2, h3⟩, fun ⟨h1, h2, h3⟩ => ⟨h1, h2, h3⟩⟩
+
 end SSJ.Props
